@@ -987,7 +987,7 @@ def device_stream(ctx, mods, n_specs, ops_per_spec):
             pairs = [p for p in adj if rng.random() < 0.7]
             gateset = cirq.Gateset(*rng.sample(pool, rng.randint(3, 9)), unroll_circuit_op=rng.random() < 0.7)
             try:
-                device = cg.GridDevice._from_device_information(qubit_pairs=pairs, gateset=gateset, all_qubits=dq)
+                device = cg.GridDevice(cirq.GridDeviceMetadata(qubit_pairs=pairs, gateset=gateset, all_qubits=dq))
             except Exception as e:
                 ctx.mark_broken('harness:grid-device', f'{type(e).__name__}: {e}')
                 continue
@@ -1201,7 +1201,7 @@ def replay_device(mods, data):
     cgs = None
     if kind == 'grid':
         gateset = py_eval(mods, data['gateset'])
-        device = cg.GridDevice._from_device_information(qubit_pairs=[tuple(sorted(p)) for p in pairs], gateset=gateset, all_qubits=qubits)
+        device = cg.GridDevice(cirq.GridDeviceMetadata(qubit_pairs=[tuple(sorted(p)) for p in pairs], gateset=gateset, all_qubits=qubits))
         gs_obj = device.metadata.gateset
     elif kind == 'aqt':
         device = ca.aqt_device.AQTDevice(cirq.Duration(micros=1), cirq.Duration(micros=1), cirq.Duration(micros=1), qubits)
